@@ -96,12 +96,15 @@ pub fn make_config(profile: &str, run_seed: u64, tier_thorough: bool) -> Config 
     }
     let max_len = if tier_thorough { 200 } else { 120 };
     let len = rng.geometric(4, max_len, if tier_thorough { 40 } else { 24 }) as u16;
+    // One run in 400 works on a big world (and is short).
+    let big = rng.chance(1, 400);
+    let len = if big { len.min(10) } else { len };
     Config {
         profile: profile.to_string(),
         nslots,
         len,
         weights: w,
-        batch_law: rng.below(4) as u8,
+        batch_law: if big { 9 } else { rng.below(4) as u8 },
         max_live_hint: *rng.pick(&[8u16, 30, 120, 400]),
     }
 }
@@ -143,9 +146,9 @@ pub fn gen_op(rng: &mut Rng, cfg: &Config, class: usize, out: &mut Vec<Op>) {
     match CLASSES[class] {
         "insert" => out.push(Op::Insert { slot, site: rng.below(g::INSERT_SITES.len() as u64) as u16, seed: rng.next_u64() }),
         "extend" => {
-            let how = *rng.pick(&[0u8, 0, 0, 1, 2]);
+            let how = *rng.pick(&[0u8, 0, 0, 0, 0, 1, 1, 2, 2, 3]);
             let nsites = match how {
-                0 => g::EXTEND_SITES.len(),
+                0 | 3 => g::EXTEND_SITES.len(),
                 1 => g::CLONED_SITES.len(),
                 _ => g::ROWS_SITES.len(),
             };
@@ -266,6 +269,12 @@ pub fn gen_history(cfg: &Config, run_seed: u64) -> Vec<Op> {
     let mut out = Vec::new();
     if cfg.weights.iter().all(|w| *w == 0) {
         return out;
+    }
+    if cfg.batch_law == 9 {
+        // A big world: one table of several thousand rows (beyond any small fixed capacity or
+        // threshold), then a short history.
+        let site = (0..g::EXTEND_SITES.len()).filter(|s| (1..=3).contains(&g::EXTEND_SITES[*s].1.len())).nth(rng.usize_below(4)).unwrap_or(1);
+        out.push(Op::Extend { slot: 0, how: 0, site: site as u16, n: rng.range(4097, 9000) as u16, extra: 0, seed: rng.next_u64() });
     }
     while out.len() < cfg.len as usize {
         let c = rng.weighted(&cfg.weights);
